@@ -10,6 +10,9 @@ type (
 	wakeSignal struct {
 		ready chan struct{}
 
+		// the object whose change raised the signal last (written before the signal is raised)
+		wokenBy string
+
 		// objects that will raise the signal if written to
 		objectsHead *signalListTuple
 		objectsTail *signalListTuple
@@ -244,6 +247,7 @@ func (wt *waitTable) unblock(name string, elements int) {
 			}
 			ws := ref.signal
 			wt.unlinkWakeSignal(ws)
+			ws.wokenBy = name
 			ws.ready <- struct{}{}
 		}
 	}
